@@ -256,7 +256,7 @@ def from_vector_case(ctx, idx, rng):
     L = int(rng.integers(1, 8))
     while d ** L > 2048:
         L -= 1
-    kind = str(rng.choice(['complex', 'real', 'product', 'sparse', 'int']))
+    kind = str(rng.choice(['complex', 'real', 'product', 'sparse', 'int', 'phase-times-real']))
     if idx % 8 == 5:
         # long chains: the first matricizations are extremely wide (2 x 8192, 3 x 6561, 6 x 7776), and data that are NEARLY of low rank across
         # the cuts (singular-value ratios 1e-8 .. 1e-13): at zero tolerance every one of these directions has to survive
@@ -287,6 +287,10 @@ def from_vector_case(ctx, idx, rng):
         v = rng.normal(size=n) + 1j * rng.normal(size=n)
     elif kind == 'real':
         v = rng.normal(size=n)
+    elif kind == 'phase-times-real':
+        # a real vector times ONE complex number whose real and imaginary parts are related exactly (1 - 1j, -1 + 1j, 1 + 1j, 1j, exp(-i pi/4)): entries with
+        # Re = -Im, Re = Im, Re = 0 -- sign conventions taken from 're + im', 'sign(re)' or a vanishing real part
+        v = rng.normal(size=n) * complex([1 - 1j, -1 + 1j, 1 + 1j, 1j, np.exp(-0.25j * np.pi), -1j][int(rng.integers(0, 6))])
     elif kind == 'int':
         v = rng.integers(-3, 4, size=n)
         if not v.any():
